@@ -47,6 +47,11 @@ def attrs(c):
                                        fftlength=hb["fftlength"], int_factor=hb["int_factor"])
     out["udr"] = float(udr).hex()
     out["pf"] = dict(tchans=int(pf["tchans"]), df=float(pf["df"]).hex(), dt=float(pf["dt"]).hex())
+    import io, contextlib
+    with contextlib.redirect_stdout(io.StringIO()):
+        ffr = stg.Frame.from_backend_params(fchans=4, obs_length=fh(c["obs_list"][0]), sample_rate=cc["sample_rate"], num_branches=c["nb"],
+                                            fftlength=hb["fftlength"], int_factor=hb["int_factor"], fch1=6e9) if int(pf["tchans"]) >= 1 else None
+    out["frame_from_backend"] = None if ffr is None else dict(tchans=int(ffr.tchans), df=float(ffr.df).hex(), dt=float(ffr.dt).hex())
     return out
 
 
